@@ -50,23 +50,22 @@ StateEvThread(k) == IF Tr[k].e \in {"tcreate.starting", "tcreate.failed"} THEN T
                     ELSE IF Tr[k].e \in {"create.pvt_running", "shutdown.set"} THEN PVT
                     ELSE IF Tr[k].e = "call.attach_first" THEN 0
                     ELSE IF Tr[k].e = "Reset" THEN -7 ELSE Tr[k].a
-Lo(k) == IF k > 3000 THEN k - 3000 ELSE 1
-Hi(k) == IF k + 200 < Len(Tr) THEN k + 200 ELSE Len(Tr)
-LastChange(d) == LET ks == {k \in Lo(l)..(l - 1) : Tr[k].e \in StateEvents /\ StateEvThread(k) \in {d, -7}} IN
-                 IF ks = {} THEN 0 ELSE CHOOSE k \in ks : \A j \in ks : j <= k
+Lo(k) == IF k > 400 THEN k - 400 ELSE 1
+Hi(k) == IF k + 300 < Len(Tr) THEN k + 300 ELSE Len(Tr)
 LastEvOf(p)   == LET ks == {k \in Lo(l)..(l - 1) : Tr[k].t = p} IN
                  IF ks = {} THEN 0 ELSE CHOOSE k \in ks : \A j \in ks : j <= k
-(* the hook that announces a state change logs AFTER the write: a reader may already have seen the new value.
-   The writer's very next event is then that announcement (for the virtual thread / thread creation, where the
-   writer is another thread, an announcement within the next few lines). *)
-PendingChange(d) ==
-    IF d = PVT
-    THEN \E k \in (l + 1)..Hi(l) : Tr[k].e \in StateEvents /\ StateEvThread(k) = d
-    ELSE LET ks == {k \in (l + 1)..Hi(l) : Tr[k].t = d \/ (Tr[k].e \in {"tcreate.starting", "tcreate.failed"} /\ Tr[k].b = d)} IN
-         ks # {} /\ LET k == CHOOSE k \in ks : \A j \in ks : k <= j IN Tr[k].e \in StateEvents /\ StateEvThread(k) = d
+PrevBy(w, k)  == LET ks == {j \in Lo(k)..(k - 1) : Tr[j].t = w} IN
+                 IF ks = {} THEN 0 ELSE CHOOSE j \in ks : \A i \in ks : i <= j
+NextBy(w, k)  == LET ks == {j \in (k + 1)..Hi(k) : Tr[j].t = w} IN
+                 IF ks = {} THEN Len(Tr) + 1 ELSE CHOOSE j \in ks : \A i \in ks : j <= i
+(* A state announcement at line k (logged by thread w) stands for a write that happened somewhere between w's
+   previous and w's next event - the hook may sit before or after the assignment.  The read of sender p happened
+   between p's previous event and this line.  If the two intervals overlap the reader may have seen either value. *)
+Racing(d, p) == \E k \in Lo(l)..Hi(l) :
+                   /\ k # l /\ Tr[k].e \in StateEvents /\ StateEvThread(k) \in {d, -7}
+                   /\ PrevBy(Tr[k].t, k) < l /\ LastEvOf(p) < NextBy(Tr[k].t, k)
 FreshOrRacing(d, p, wantRunning) == \/ (tstate[d] \in RunningStates) = wantRunning
-                                    \/ LastChange(d) > LastEvOf(p)
-                                    \/ PendingChange(d)
+                                    \/ Racing(d, p)
 TRunning   == IsEv("send.running") /\ ReadState(E.i, TRUE) /\ Keep /\ KeepB /\ KeepL
               /\ FreshOrRacing(E.d, E.t, TRUE)
 TNotRun    == IsEv("send.notrunning") /\ ReadState(E.i, FALSE) /\ Keep /\ KeepB /\ KeepL
